@@ -23,6 +23,7 @@ class Layer:
     def __init__(self, watch_dir: str) -> None:
         self.watch = os.path.realpath(watch_dir)
         self.log: List[Tuple[int, str, str]] = []
+        self.log_threads: List[str] = []  # thread name per log entry (two-writer monitor)
         self.counter = 0
         self.lock = threading.Lock()
         # action: None | ('fault', k, errno) | ('crash', k)
@@ -48,6 +49,7 @@ class Layer:
             k = self.counter
             self.counter += 1
             self.log.append((k, kind, name))
+            self.log_threads.append(tname)
             tk = self.per_thread_counter.get(tname, 0)
             self.per_thread_counter[tname] = tk + 1
             act = self.action
